@@ -94,8 +94,15 @@ class Prop(PropBase):
 
     def generate(self, rng, n, tier):
         cases = []
-        from props.C08 import gen_walrus_case
+        from props.C08 import gen_walrus_case, gen_rf_case
         for _ in range(n):
+            if rng.random() < 0.08:
+                # containers reached THROUGH an expression (plain, :rf, :ff): mapping keys, values and members
+                # are all formatted by the rule of that expression
+                c = gen_rf_case(rng)
+                c.update(dict_cls='dict', list_cls='list', frozen=False)
+                cases.append(c)
+                continue
             if rng.random() < 0.05:
                 # !py strings that bind names with := (written with and without spaces): nothing of it may
                 # reach the context
